@@ -6,7 +6,8 @@ RULE = ('(1) DEV over the family "one interaction (plus an unrelated request-res
         'on last element, empty completion, application error (failed future / raising handler / publisher on_error), '
         'cancel by the requester at every point, cancel racing completion, channel directions closing in both orders and '
         'abnormally; both initiators, fragment size {None, 64}, links {tcp, msg}; after the fair flush both endpoints must '
-        'hold no open stream and no partially reassembled frame; non-trivial = execution whose interaction ended '
+        'hold no open stream and no partially reassembled frame, and must accept every stream id used in the execution again '
+        '(assert_stream_id_available; in part (2) the scripted peer re-opens a channel under the same id); non-trivial = execution whose interaction ended '
         'abnormally (error/cancel) or with fragmentation on; (2) SEQ: one real endpoint vs a scripted legal peer whose fragmented payload is interrupted '
         'by our own terminal action (cancel / publisher error / completion) at every point, the peer then stopping or sending fragments still in flight')
 EXPLANATION = 'stateless deviation-bounded exploration of real endpoints; oracle = the observation assert_no_open_streams makes, extended to the reassembly cache'
